@@ -343,6 +343,9 @@ StepSummary(e) ==
     [] e.op = "reclaim" ->
          IF e.live_after_use = 0 /\ e.held_while_fresh > 0 THEN UNCHANGED bad
          ELSE RejectEv({"C20"}, "expired transfer state was not reclaimed on the next use of the handler")
+    [] e.op = "retain" ->
+         IF e.live_after_crowd = e.live_before_crowd /\ e.live_before_crowd > 0 THEN UNCHANGED bad
+         ELSE RejectEv({"C20"}, "live transfer state was dropped before its expiry while other keys passed through the handler")
 
 Step ==
   /\ l <= NRec /\ l' = l + 1 /\ UNCHANGED done
